@@ -159,6 +159,13 @@ pub fn gen_ty(rng: &mut Rng, depth: usize, cfg: GenCfg) -> Ty {
     if depth == 0 {
         return gen_leaf(rng, cfg);
     }
+    if cfg.generics && rng.chance(1, 45) {
+        // many distinct generic parameters: around 26, 52 and 78 (canonical names are drawn from an alphabet)
+        let n = *rng.pick(&[24usize, 25, 26, 27, 28, 29, 51, 52, 53, 54, 79]);
+        let elems: Vec<Ty> = (0..n).map(|i| Ty::Generic(format!("P{i}"))).collect();
+        let wide = Ty::Tuple(elems);
+        return if rng.chance(1, 2) { wide } else { Ty::Ref { mutable: rng.chance(1, 2), lt: gen_lt(rng), inner: Box::new(wide) } };
+    }
     // children may be shallower than the budget
     let sub = |rng: &mut Rng| {
         let d = if rng.chance(1, 3) { rng.below(depth) } else { depth - 1 };
@@ -342,6 +349,12 @@ pub fn random_bijection(rng: &mut Rng, x: &Ty) -> Option<BTreeMap<String, String
     }
     for _ in 0..8 {
         let mut names = fresh_names();
+        // (as many target names as there are parameters, or the renaming would not be injective)
+        let mut k = 0;
+        while names.len() < ps.len() {
+            names.push(format!("Q{k}"));
+            k += 1;
+        }
         rng.shuffle(&mut names);
         let m: BTreeMap<String, String> = ps.iter().cloned().zip(names).collect();
         if m.iter().any(|(k, v)| k != v) {
